@@ -4,7 +4,7 @@ import ast
 from ..core import sym
 from ..core.expand import u, call_name, get_arg, bind_args, Expander, is_marker, phi_alternatives
 from ..core.loader import Inconclusive, const_value, parents
-from .common import (returns, all_nodes, callee, strip_shape, calls_in, guards_of, stmt_of, loops_around, role_of, kw,
+from .common import (returns, all_nodes, callee, strip_shape, calls_in, guards_of, guard_dnf, stmt_of, loops_around, role_of, kw,
                      is_true, find_assignments)
 from . import sentinel
 
@@ -331,25 +331,32 @@ def rule_mask_polarity(ck):
             o.fail('the flag layer is written with `%s`; only 0 (= active cell) may be written' % u(c.value))
             continue
         g = guards_of(c, w.node)
-        ok = False
         why = []
-        for t, pol in g:
-            txt = u(t)
-            if 'poly_mask' in txt:
+        # every way of reaching the store (disjunct of the guard's normal form) must either see a flag of 1 or see that
+        # no flags exist; no disjunct may select a flag of 0
+        for conj in guard_dnf(c, w.node):
+            ok = False
+            for t, pol in conj:
+                txt = u(t)
+                if 'poly_mask' not in txt:
+                    continue
                 if isinstance(t, ast.Compare) and len(t.ops) == 1:
                     cv = const_value(t.comparators[0])
-                    if 'is not None' in txt or 'is None' in txt:
-                        # the None test: clearing in the "no flags" branch is fine
-                        if (('is not None' in txt) and not pol) or (('is None' in txt) and pol):
+                    op = t.ops[0]
+                    if isinstance(op, (ast.Is, ast.IsNot)) and cv is None:
+                        if isinstance(op, ast.Is) == pol:
                             ok = True
                         continue
-                    eq1 = isinstance(t.ops[0], ast.Eq) and cv == 1 or isinstance(t.ops[0], ast.NotEq) and cv == 0
-                    eq0 = isinstance(t.ops[0], ast.Eq) and cv == 0 or isinstance(t.ops[0], ast.NotEq) and cv == 1
+                    eq1 = isinstance(op, ast.Eq) and cv == 1 or isinstance(op, ast.NotEq) and cv == 0
+                    eq0 = isinstance(op, ast.Eq) and cv == 0 or isinstance(op, ast.NotEq) and cv == 1
                     if (eq1 and pol) or (eq0 and not pol):
                         ok = True
                     else:
                         why.append('cleared when `%s` is %s' % (txt, pol))
-        if ok and not why:
+            if not ok:
+                why.append('reachable under `%s` without consulting the flag' %
+                           (' and '.join(('' if pl else 'not ') + u(t) for t, pl in conj) or 'no condition'))
+        if not why:
             o.ok('cleared only for a flag of 1 / when no flags exist')
         else:
             o.fail('the cell is activated under `%s`: the file convention is flag 1 = valid cell, so only a flag of 1 (or the '
